@@ -212,7 +212,7 @@ def moved_check(diff, old, new, pre, path, out, parent_op="affected", in_rewrite
 def parse_signed(lines, fmt):
     """read back formatter.diff(): [(sign, row, children)]"""
     root = []
-    stack = [(-1, root)]
+    stack = [(-1, root, None)]
     ind = fmt._indent
     for ln in lines:
         sign, rest = ln[0], ln[2:]
@@ -221,6 +221,11 @@ def parse_signed(lines, fmt):
             rest = rest[len(ind):]
             lvl += 1
         if fmt._block_end and rest == fmt._block_end:
+            # the closing line belongs to the block opened at this level and carries that block's sign
+            while stack[-1][0] > lvl:
+                stack.pop()
+            if stack[-1][0] != lvl or stack[-1][2] != sign:
+                root.append(("?", "block-end line %r does not close a block of its own sign" % ln, []))
             continue
         for suf in (fmt._block_begin, fmt._statement_end):
             if suf and rest.endswith(suf):
@@ -230,7 +235,7 @@ def parse_signed(lines, fmt):
             stack.pop()
         node = (sign, rest, [])
         stack[-1][1].append(node)
-        stack.append((lvl, node[2]))
+        stack.append((lvl, node[2], sign))
     return root
 
 
@@ -291,14 +296,17 @@ def oracle(case, r):
     stripped = patching.strip_unchanged(d)
     if case["old"] == case["new"] and stripped:
         out.append(dict(sig="self-diff-not-empty", what="diff of a config with itself reports %r" % (rbgen.dump_diff(stripped)[:3],)))
-    fmt = registry_connector.get()[case["vendor"]].make_formatter()
-    try:
-        lines = fmt.diff(stripped)
-        back = parse_signed(lines, fmt)
-        if back != signed(stripped):
-            out.append(dict(sig="diff-text-roundtrip", what="formatter.diff text read back differs from the diff entries"))
-    except Exception as e:  # noqa
-        out.append(dict(sig="diff-text-raises", what="formatter.diff raised %r" % (e,)))
+    for name, fmt in _formatters(case):
+        try:
+            lines = fmt.diff(stripped)
+            back = parse_signed(lines, fmt)
+            if back != signed(stripped):
+                out.append(dict(sig="diff-text-roundtrip", what="%s formatter.diff text %r read back differs from the diff "
+                                "entries (signs, rows, nesting, sign of block-end lines)" % (name, lines[:6])))
+                break
+        except Exception as e:  # noqa
+            out.append(dict(sig="diff-text-raises", what="%s formatter.diff raised %r" % (name, e)))
+            break
     # the `annet diff` view: per level as a multiset
     try:
         from annet.annlib.diff import gen_pre_as_diff
